@@ -66,6 +66,10 @@ pub const MENU_M: &[&str] = &[
     "NONBLOCKING PULSE 0 1 \"c\" flat(duration: b, iq: 1)",
     "LOAD a b n",
     "STORE b n a",
+    "EQ b a 1",
+    "GT ro b 0.5",
+    "STORE a n 7",
+    "MOVE n 1",
 ];
 /// timed menu for C25: only instructions with a known duration
 pub const MENU_T: &[&str] = &[
@@ -912,7 +916,7 @@ pub static C23: PropDef = PropDef {
     id: "C23",
     level: "model_checking",
     engine: "queue",
-    rule: "(A) every sequence of length <= L over a 15-instruction memory menu (regions a,b: every access shape, two captures into one region on disjoint non-blocking frames) and over the 27-instruction general menu, x 3 terminators, scheduled by the real code; (B) every access sequence (Read/Write/Capture) of length <= 8 (11 thorough) on one real DependencyQueue and every sequence of <= 4 (5) multi-queue actions on two queues, through the hook. non-trivial = program with >= 1 conflicting memory pair / queue sequence of length >= 2",
+    rule: "(A) every sequence of length <= L over a 19-instruction memory menu (regions a,b: every access shape, two captures into one region on disjoint non-blocking frames) and over the 27-instruction general menu, x 3 terminators, scheduled by the real code; (B) every access sequence (Read/Write/Capture) of length <= 8 (11 thorough) on one real DependencyQueue and every sequence of <= 4 (5) multi-queue actions on two queues, through the hook. non-trivial = program with >= 1 conflicting memory pair / queue sequence of length >= 2",
     assumptions: ASSUME,
     run: |ctx| {
         ctx.bound("menu_memory", json!(MENU_M));
